@@ -16,7 +16,7 @@ import re
 import traceback
 
 import schema_gen
-from common import (Ctx, Failure, REPO, SRC, cbool, cjson, clist, cnat, copt, corpus_cases, cstr)
+from common import (Ctx, Failure, REPO, SRC, cbool, cjson, clist, cnat, copt, corpus_cases, cstr, shrink_list)
 
 COQ_TARGETS = ["props/P_C20.vo", "corr/Corr_C20.vo"]
 PROOF_FILES = ["proofs/Schema_proofs.v"]
@@ -153,11 +153,23 @@ class World:
                                                "locals": {"l": "=inputs.a.map(v, v.z)"},
                                                "resourceTemplateRef": {"name": "=inputs.tname"}}),
         ("Workflow", "wf-ok", {"steps": [{"label": "one", "ref": {"kind": "ValueFunction", "name": "vf-static"}}]}),
+        # definitions whose VALID CEL reads inputs / parent in ways that do not give a plain name
+        ("ValueFunction", "vf-odd", {"locals": {"k": '=inputs[".hidden"] + inputs["[0]"]'},
+                                     "return": {"a": "=inputs[''] + inputs['a.b'] + inputs[\"it's\"]",
+                                                "b": "=inputs[inputs.key].x + inputs[1.5] + inputs.plain.deep.chain[0]",
+                                                "c": "=inputs"}}),
+        ("ResourceFunction", "rf-odd", {"apiConfig": {"apiVersion": "v1", "kind": "ConfigMap", "name": '=inputs[".n"]',
+                                                      "namespace": "=inputs['[ns']"},
+                                        "locals": {"l": "=inputs[''] + inputs.a"},
+                                        "resourceTemplateRef": {"name": '=inputs[".t"] + inputs.tname'}}),
+        ("Workflow", "wf-odd", {"steps": [{"label": "one", "ref": {"kind": "ValueFunction", "name": "vf-odd"},
+                                           "inputs": {"key": "=parent['.x']", "plain": "=parent[''] + parent['[0]'].y",
+                                                      "z": "=parent[parent.k] + parent.spec.deep"}}]}),
     ]
     NAMES = {
-        "ValueFunction": ["vf-ok", "vf-static", "vf-pre", "vf-bad", "vf-missing"],
-        "ResourceFunction": ["rf-ok", "rf-tmpl", "rf-tmpl-static", "rf-tmpl-macro", "rf-missing"],
-        "Workflow": ["wf-ok", "wf-missing"],
+        "ValueFunction": ["vf-ok", "vf-static", "vf-pre", "vf-bad", "vf-missing", "vf-odd", "vf-odd"],
+        "ResourceFunction": ["rf-ok", "rf-tmpl", "rf-tmpl-static", "rf-tmpl-macro", "rf-missing", "rf-odd"],
+        "Workflow": ["wf-ok", "wf-missing", "wf-odd"],
         "ResourceTemplate": ["tmpl-ok", "tmpl-missing"],
     }
 
@@ -743,17 +755,21 @@ class Gen:
         return doc
 
 
-def fix_refs(doc, rng):
-    """give every {kind: <Function kind>, name: None} a name from the cache fixture list (or a missing one)."""
+def fix_refs(doc, rng, only_ok=False):
+    """give every {kind: <Function kind>, name: None} a name from the cache fixture list (or a missing one;
+    only_ok: only names that are cached and healthy, so that the code after the look-up runs)."""
     if isinstance(doc, dict):
-        if "name" in doc and doc["name"] is None:
+        if "name" in doc and (doc["name"] is None or (only_ok and isinstance(doc["name"], str)
+                                                      and doc["name"].endswith(("-missing", "-bad")))):
             names = World.NAMES.get(doc.get("kind"), ["vf-ok", "rf-ok"])
+            if only_ok:
+                names = [n for n in names if not n.endswith(("-missing", "-bad"))]
             doc["name"] = rng.choice(names)
         for v in doc.values():
-            fix_refs(v, rng)
+            fix_refs(v, rng, only_ok)
     elif isinstance(doc, list):
         for v in doc:
-            fix_refs(v, rng)
+            fix_refs(v, rng, only_ok)
 
 
 # -- mutations ---------------------------------------------------------------------------------------
@@ -964,6 +980,55 @@ def targeted(rng, gen: "Gen", schema, spec):
     return set_at(spec, path, d), "targeted:default"
 
 
+def schema_positions(n, pre=()):
+    """every position the schema describes, list indices written as "[]" (all depths)."""
+    yield pre
+    for k, sub in (n["props"] or []):
+        yield from schema_positions(sub, pre + (k,))
+    if n["items"] is not None:
+        yield from schema_positions(n["items"], pre + ("[]",))
+
+
+def position_of(path):
+    return tuple("[]" if isinstance(p, int) else p for p in path)
+
+
+SWEEP_VALUES = [("list", ["x"]), ("list", []), ("dict", {"k": 1}), ("dict", {}), ("null", None), ("bool", True),
+                ("bool", False), ("int", 7), ("int", 0), ("float", 2.5), ("float", 30.0), ("str", "s"), ("str", "")]
+
+
+def position_sweep(rng, schemas, kind, per_position, full):
+    """Type confusion at EVERY position of the kind's schema (whatever its depth), in specs that are otherwise
+    valid and reference only cached, healthy definitions (so the code behind the confused value runs):
+    an unhashable list and an unhashable object everywhere, plus null / bool / int / float / str."""
+    wanted = [p for p in schema_positions(schemas[kind]) if p]
+    have: dict[tuple, list] = {p: [] for p in wanted}
+    for attempt in range(60):
+        if all(len(v) >= per_position for v in have.values()):
+            break
+        g = Gen(rng, bad_cel=0.0, p_opt=rng.choice([0.8, 0.97]), p_expr=0.4)
+        doc = g.spec(kind, schemas)
+        fix_refs(doc, rng, only_ok=True)
+        if judge_invalid(kind, doc):
+            continue
+        for path, n, v in schema_sites(schemas[kind], doc):
+            pos = position_of(path)
+            if pos in have and len(have[pos]) < per_position and not any(d is doc for d, _ in have[pos]):
+                have[pos].append((doc, path))
+    for pos in wanted:
+        for doc, path in have[pos]:
+            old = get_at(doc, path)
+            vals = [(t, v) for t, v in SWEEP_VALUES if t != json_type(old)]
+            if not full:
+                unhashable = [x for x in vals if x[0] in ("list", "dict")]
+                rest = [x for x in vals if x[0] not in ("list", "dict")]
+                vals = ([rng.choice([x for x in unhashable if x[0] == "list"] or unhashable)] +
+                        [rng.choice([x for x in unhashable if x[0] == "dict"] or unhashable)] +
+                        rng.sample(rest, min(2, len(rest))))
+            for _t, v in vals:
+                yield {"kind": kind, "spec": set_at(doc, path, copy.deepcopy(v)), "stream": "sweep"}
+
+
 def equal_twins(v):
     """JSON values of ANOTHER JSON type that Python's == (and hash) cannot tell from v: true/1/1.0, false/0/0.0,
     n/n.0.  (What a memo keyed by equality, an `in` on a list, a dict key ... conflates.)"""
@@ -1132,6 +1197,8 @@ def gen_cases(ctx: Ctx, schemas):
     rng = ctx.rng
     for c in corpus_cases("C20"):
         c = c.get("case", c)
+        if "defs" in c:
+            continue          # a sequence of definitions: run by check_sequence
         yield {"kind": c["kind"], "spec": c["spec"], "stream": "corpus",
                **({"after": c["after"]} if c.get("after") is not None else {})}
     for kind, spec in defect_probes():
@@ -1167,6 +1234,8 @@ def gen_cases(ctx: Ctx, schemas):
     for kind in KINDS:
         yield from twin_pairs(rng, schemas, kind, 6 * scale)
     for kind in KINDS:
+        yield from position_sweep(rng, schemas, kind, per_position=1 if ctx.quick() else 3, full=not ctx.quick())
+    for kind in KINDS:
         for i in range(n_valid):
             g = Gen(rng, bad_cel=0.0, p_opt=rng.choice([0.15, 0.5, 0.9]), p_expr=rng.choice([0.1, 0.5]))
             spec = g.spec(kind, schemas)
@@ -1189,6 +1258,245 @@ def gen_cases(ctx: Ctx, schemas):
                 if rng.random() < 0.2 and how != "oversize":   # a second, independent mutation
                     spec, _ = mutate(rng, spec, rng.choice(["confuse", "drop", "extra"])) if isinstance(spec, (dict, list)) else (spec, "")
                 yield {"kind": kind, "spec": spec, "stream": how}
+
+
+# ==================================================================================================
+# sequences of definitions in one process: later ones reference earlier (cached) ones
+# ==================================================================================================
+
+ODD_KEYS = ['".hidden"', '"[0]"', "''", "'a.b'", '"with space"', "'q\\\"uote'", '"it\'s"', "'.'", "'[x'", "'a[0]'",
+            "' '", '"é"', "'..'", "'[]'", "'=x'"]
+PLAIN_INPUTS = ["a", "name", "key", "tname", "ns", "items", "cfg"]
+
+
+def input_access(rng, root="inputs") -> str:
+    """one VALID way of reading an input (or parent): plain, odd string keys, computed index, deep chains, macros."""
+    k = rng.random()
+    tail = rng.choice(["", "", ".x", "[0]", "['y']", ".deep.er[1].still"])
+    if k < 0.35:
+        return f"{root}[{rng.choice(ODD_KEYS)}]{tail}"
+    if k < 0.5:
+        idx = rng.choice([f"{root}.{rng.choice(PLAIN_INPUTS)}", "locals.k", f"size({root})", "0", "1.5", "true", "-1",
+                          f"{root}['k']", "'a' + 'b'", f"{root}.a ? 'x' : 'y'"])
+        return f"{root}[{idx}]{tail}"
+    if k < 0.65:
+        return f"{root}.{rng.choice(PLAIN_INPUTS)}.b.c.d.e[0].f['g'].h{tail}"
+    if k < 0.78:
+        n = rng.choice(PLAIN_INPUTS)
+        return rng.choice([f"has({root}.{n}.b)", f"{root}.items.map(v, v.name)", f"size({root})", root,
+                           f"{root}.items.filter(v, v.on).size()", f"({root}).{n}", f"[{root}][0].{n}",
+                           f"{root}.{n}.self_ref().name"])
+    return f"{root}.{rng.choice(PLAIN_INPUTS)}{tail}"
+
+
+def odd_expr(rng, root="inputs") -> str:
+    parts = [input_access(rng, root) for _ in range(rng.choice([1, 1, 2, 3]))]
+    how = rng.choice(["plus", "list", "map", "cond"])
+    if len(parts) == 1:
+        return "=" + parts[0]
+    if how == "plus":
+        return "=" + " + ".join(parts)
+    if how == "list":
+        return "=[" + ", ".join(parts) + "]"
+    if how == "map":
+        return "={" + ", ".join(f"'k{i}': {x}" for i, x in enumerate(parts)) + "}"
+    return f"={parts[0]} ? {parts[1]} : {parts[-1]}"
+
+
+def provided_inputs(rng, spec) -> dict | None:
+    """inputs a referencing definition passes: none / some / all of the plain names the referenced one reads (+ extras)."""
+    text = json.dumps(spec)
+    names = sorted(set(re.findall(r"(?:inputs|parent)\.([A-Za-z_]\w*)", text)))
+    mode = rng.choice(["none", "some", "all", "all+odd"])
+    if mode == "none":
+        return None
+    if mode == "some":
+        names = [n for n in names if rng.random() < 0.5]
+    out = {n: rng.choice([1, "v", "=parent.spec.v", {"x": [1]}, "=steps.nope"]) for n in names}
+    if mode == "all+odd":
+        out.update({".hidden": 1, "[0]": 2, "": 3, "a.b": "=inputs.z" if False else 4})
+    return out
+
+
+def odd_definition(rng, kind, name_of_template=None) -> dict:
+    """a schema-valid definition of `kind` whose expressions read their inputs in odd-but-valid ways."""
+    e = lambda root="inputs": odd_expr(rng, root)  # noqa: E731
+    if kind == "ValueFunction":
+        spec = {"return": {f"r{i}": e() for i in range(rng.randint(1, 3))}}
+        if rng.random() < 0.5:
+            spec["locals"] = {"k": e()}
+        if rng.random() < 0.4:
+            spec["preconditions"] = [{"assert": e(), "skip": {"message": "m"}}]
+        return spec
+    if kind == "ResourceFunction":
+        spec = {"apiConfig": {"apiVersion": "v1", "kind": "ConfigMap", "name": e(), "namespace": rng.choice(["ns", e()])}}
+        if name_of_template is not None and rng.random() < 0.6:
+            spec["resourceTemplateRef"] = {"name": rng.choice([name_of_template, e(), "=inputs.tname"])}
+        else:
+            spec["resource"] = {"apiVersion": "v1", "kind": "ConfigMap", "data": {"d": e()}}
+        if rng.random() < 0.6:
+            spec["locals"] = {"k": e()}
+        if rng.random() < 0.4:
+            spec["return"] = {"r": e()}
+        return spec
+    if kind == "Workflow":     # reads `parent` oddly; its own step runs a plain fixture-free ValueFunction reference
+        return {"steps": [{"label": "inner", "ref": {"kind": "ValueFunction", "name": "seq-leaf"},
+                           "inputs": {f"i{i}": e("parent") for i in range(rng.randint(1, 3))},
+                           **({"skipIf": e("parent")} if rng.random() < 0.4 else {})}]}
+    raise ValueError(kind)
+
+
+def gen_sequence(rng) -> dict:
+    """{defs: [{kind, name, spec}...], touch: bool}: definitions offered to prepare_and_cache in this order."""
+    defs = [{"kind": "ValueFunction", "name": "seq-leaf", "spec": {"return": {"v": "=inputs.v"}}},
+            {"kind": "ResourceTemplate", "name": "seq-tmpl",
+             "spec": {"template": {"apiVersion": "v1", "kind": "ConfigMap", "data": {}}}}]
+    base_kind = rng.choice(["ValueFunction", "ValueFunction", "ResourceFunction", "Workflow"])
+    base = {"kind": base_kind, "name": "seq-base", "spec": odd_definition(rng, base_kind, "seq-tmpl")}
+    defs.append(base)
+    refs = []          # referencing definitions
+    for i in range(rng.randint(1, 3)):
+        target = rng.choice([base] + [r for r in refs if r["kind"] != "FunctionTest"])
+        inputs = provided_inputs(rng, target["spec"])
+        options = []
+        if target["kind"] == "ValueFunction":
+            options += ["overlay", "step", "switch", "test"]
+        elif target["kind"] == "ResourceFunction":
+            options += ["step", "switch", "test"]
+        else:
+            options += ["step", "switch"]
+        how = rng.choice(options)
+        name = f"seq-ref{i}"
+        ref = {"kind": target["kind"], "name": target["name"]}
+        if how == "overlay":
+            ov = {"overlayRef": ref}
+            if inputs is not None:
+                ov["inputs"] = inputs
+            if rng.random() < 0.3:
+                ov["skipIf"] = odd_expr(rng)
+            spec = {"apiConfig": {"apiVersion": "v1", "kind": "ConfigMap", "name": "n", "namespace": "ns"},
+                    "resource": {"apiVersion": "v1", "kind": "ConfigMap"}, "overlays": [ov]}
+            refs.append({"kind": "ResourceFunction", "name": name, "spec": spec})
+        elif how in ("step", "switch"):
+            step = {"label": "call_it"}
+            if how == "step":
+                step["ref"] = ref
+            else:
+                step["refSwitch"] = {"switchOn": odd_expr(rng, "parent"),
+                                     "cases": [dict(ref, case="x", default=True),
+                                               {"case": "y", "kind": "ValueFunction", "name": "seq-leaf"}]}
+            if inputs is not None:
+                step["inputs"] = inputs
+            refs.append({"kind": "Workflow", "name": name, "spec": {"steps": [step]}})
+        else:
+            spec = {"functionRef": ref, "testCases": [{"expectReturn": {"a": 1}},
+                                                      {"inputOverrides": {"tname": "seq-tmpl", ".hidden": 1},
+                                                       "expectOutcome": {"ok": {}}}]}
+            if inputs is not None:
+                spec["inputs"] = {k: (v if not (isinstance(v, str) and v.startswith("=")) else "lit") for k, v in inputs.items()}
+            refs.append({"kind": "FunctionTest", "name": name, "spec": spec})
+    order = rng.choice(["deps-first", "deps-first", "deps-last"])
+    seq = defs + refs if order == "deps-first" else defs[:2] + refs + [base]
+    return {"defs": seq, "touch": rng.random() < 0.6,
+            "touch_spec": odd_definition(rng, base_kind, "seq-tmpl") if rng.random() < 0.5 else None}
+
+
+def run_sequence(world: World, case) -> list:
+    """offer the definitions in order to the real cache; -> [(signature, what, index)] of everything that raised /
+    came back malformed, re-prepares by the cache's monitor tasks included."""
+    import drivers
+    from koreo import cache
+    drivers.reset_all()
+    world.populated = False
+    world.run(asyncio.sleep(0))
+    problems = []
+    reprepare_errors = []
+
+    def recording(prep, idx):
+        async def preparer(cache_key, spec):
+            try:
+                return await prep(cache_key, spec)
+            except Exception as e:  # noqa: BLE001
+                reprepare_errors.append((idx, type(e).__name__, site_of(e), str(e)[:160]))
+                raise
+        return preparer
+
+    preparers = {}
+
+    def offer(idx, d, version):
+        cls, prep = world.real[d["kind"]]
+        pr = preparers.setdefault(idx, recording(prep, idx))
+        n_before = len(reprepare_errors)
+        try:
+            out = world.run(cache.prepare_and_cache(cls, pr, {"name": d["name"], "resourceVersion": version},
+                                                    copy.deepcopy(d["spec"])))
+        except Exception as e:  # noqa: BLE001
+            del reprepare_errors[n_before:]
+            problems.append((f"raises {type(e).__name__} at {site_of(e)}",
+                             f"prepare_and_cache of {d['kind']} '{d['name']}' (definition #{idx} of the sequence) raised "
+                             f"{type(e).__name__}: {str(e)[:160]}", idx))
+            return
+        c, msg, problem = classify(out, cls, True)
+        if problem:
+            problems.append((f"{d['kind']}: returns neither prepared resource nor PermFail/Retry", problem, idx))
+        elif c in ("PermFail", "Retry") and not (isinstance(msg, str) and msg.strip()):
+            problems.append((f"{d['kind']}: {c} without a message", f"definition #{idx}: {c} with message {msg!r}", idx))
+
+    def settle():
+        for _ in range(12):
+            world.run(asyncio.sleep(0))
+
+    for idx, d in enumerate(case["defs"]):
+        offer(idx, d, "1")
+        settle()
+    if case.get("touch"):
+        base_idx = next((i for i, d in enumerate(case["defs"]) if d["name"] == "seq-base"), None)
+        if base_idx is not None:
+            d = dict(case["defs"][base_idx])
+            if case.get("touch_spec") is not None:
+                d["spec"] = case["touch_spec"]
+            offer(base_idx, d, "2")
+            settle()
+    for idx, exc, site, msg in reprepare_errors:
+        d = case["defs"][idx]
+        problems.append((f"re-prepare raises {exc} at {site}",
+                         f"the cache's re-preparer of {d['kind']} '{d['name']}' raised {exc}: {msg}", idx))
+    drivers.reset_all()
+    world.run(asyncio.sleep(0))
+    return problems
+
+
+def check_sequence(ctx: Ctx, world: World, case, shrink=True):
+    problems = run_sequence(world, case)
+    for sig, what, idx in problems:
+        n_sig = SIG_COUNT.get(sig, 0)
+        SIG_COUNT[sig] = n_sig + 1
+        if n_sig >= 3:
+            ctx.count("oracle-failures-not-recorded(repeat of a signature)")
+            continue
+        small = case
+        if shrink and n_sig == 0:
+            def fails(c, sig=sig):
+                return any(s0 == sig for s0, _, _ in run_sequence(world, c))
+            # drop whole definitions, then shrink each remaining spec
+            keep = shrink_list(list(range(len(small["defs"]))),
+                               lambda ix: bool(ix) and fails(dict(small, defs=[small["defs"][i] for i in ix])))
+            small = dict(small, defs=[small["defs"][i] for i in keep])
+            if small.get("touch") and fails(dict(small, touch=False)):
+                small = dict(small, touch=False, touch_spec=None)
+            for i in range(len(small["defs"])):
+                def still(cand, i=i):
+                    ds = list(small["defs"])
+                    ds[i] = dict(ds[i], spec=cand)
+                    return fails(dict(small, defs=ds))
+                new = shrink_spec(small["defs"][i]["spec"], still, budget=40)
+                ds = list(small["defs"])
+                ds[i] = dict(ds[i], spec=new)
+                small = dict(small, defs=ds)
+        ctx.fail(Failure(signature=sig, what=what, case=small,
+                         expected="every definition of the sequence (and every re-prepare the cache starts) returns a "
+                                  "prepared resource or PermFail/Retry with a message"))
+    return problems
 
 
 # ==================================================================================================
@@ -1546,6 +1854,20 @@ def run(ctx: Ctx):
     seen = set()
     try:
         second_order(ctx, world, counters)
+        for c in corpus_cases("C20"):
+            c = c.get("case", c)
+            if "defs" in c:
+                check_sequence(ctx, world, c)
+                ctx.note_case(c, True)
+                ctx.count("stream:sequence(corpus)")
+        for _ in range(120 if ctx.quick() else 1500):
+            seq_case = gen_sequence(ctx.rng)
+            problems = check_sequence(ctx, world, seq_case, shrink=len(ctx.failures) < 40)
+            ctx.note_case(seq_case, True)
+            ctx.count("stream:sequence")
+            ctx.count(f"sequence:len{len(seq_case['defs'])}" + (":touch" if seq_case["touch"] else ""))
+            if problems:
+                ctx.count("sequence:with-problem")
         import itertools
         stream = itertools.chain(gen_cases(ctx, schemas),
                                  cel_bulk(ctx, world, counters, 1500 if ctx.quick() else 20000))
@@ -1589,6 +1911,10 @@ def replay(ctx: Ctx, data):
     try:
         if "first" in case:
             second_order(ctx, world, counters)
+            ctx.note_case(case, True)
+            return
+        if "defs" in case:
+            check_sequence(ctx, world, case, shrink=False)
             ctx.note_case(case, True)
             return
         c = {"kind": case["kind"], "spec": case["spec"], "stream": "replay"}
